@@ -9,6 +9,10 @@ Plan gen_lockstep(uint64_t seed, int tier, int flavour) {
   // ---- swarm configuration
   int kind = (int[]){K_SINGLE, K_SINGLE, K_SINGLE, K_SINGLE, K_SINGLE, K_SINGLE, K_SURROUND, K_SURROUND, K_MS, K_PROJ}[r.range(0, 9)];
   int maxch = tier ? 11 : 6;
+  // tight multistream sessions: many streams, buffers in the few bytes right above the smallest packet the streams can form, long
+  // frames over-represented (the per-stream byte reservations of the multistream encoder are exercised nowhere else)
+  bool tight_ms = kind != K_SINGLE && r.chance(0.4);
+  if (tight_ms) maxch = tier ? 16 : 12;
   Layout l; gen_layout(r, l, kind, maxch);
   int host = host_arch();
   p.ops.push_back(mkop("ENCNEW", {kind, r.range(0, 4), l.ch, r.range(0, 2), l.family, (int64_t)r.range(0, 1 << 20), r.chance(0.5) ? -1 : r.range(0, host), (int64_t)r.range(1, 1 << 30)}));
@@ -40,11 +44,13 @@ Plan gen_lockstep(uint64_t seed, int tier, int flavour) {
                              : r.pick({4000, 1500, 1500, 1000, 400, 100 * ns, 20 * ns, 4 * ns, 3 * ns, 2 * ns, 2 * ns - 1, 1});
   double pctl = r.pick({0.0, 0.1, 0.3, 0.6}), pmtu = r.pick({0.0, 0.05, 0.3});
   if (flavour == 1) { pmtu = r.pick({0.1, 0.3, 0.6}); }
+  if (tight_ms) { mtu = -1000 - (int)r.range(0, 8 * l.ch); fidx = r.weighted({1, 1, 1, 2, 1, 1, 1, 8, 1}); nfr = std::min(nfr, tier ? 40 : 12); }
   for (int i = 0; i < nfr; i++) {
     if (r.chance(pctl)) push_ctl();
     if (r.chance(0.06)) push_src();
     if (r.chance(0.12)) fidx = r.weighted({2, 2, 4, 8, 3, 3, 1, 1, 1});
-    if (r.chance(pmtu)) mtu = flavour == 1 ? (r.chance(0.4) ? (int)r.range(1, 10) : (int)r.range(1, 4000))
+    if (tight_ms && r.chance(0.5)) mtu = -1000 - (int)(r.chance(0.3) ? r.range(0, 6) : r.range(0, 8 * l.ch));
+    else if (r.chance(pmtu)) mtu = flavour == 1 ? (r.chance(0.4) ? (int)r.range(1, 10) : (int)r.range(1, 4000))
                                            : r.pick({1, 2, 3, 4, 8, 20, 50, 100, 1275, 1276, 1500, (int)r.range(1, 1500)});
     int fi = fidx;
     if (fi < minfi && r.chance(0.9)) fi = minfi;
